@@ -158,6 +158,9 @@ def run(db, chk):
                        "the geometric meaning of pass_length"]
     chk.rule("C15-K1", "Kruskal and Boruvka return a spanning tree with basins-1 edges whose weight is the "
              "minimum spanning tree weight, also when the same object is reused", min_instances=50)
+    chk.rule("C15-K4", "Boruvka with the degree threshold lowered to 2 (all graphs but K4) and 3 (all graphs), "
+             "which exercises the duplicate-edge clean-up of large-degree nodes: spanning tree of minimum weight, "
+             "run twice on the same object", min_instances=500)
     chk.rule("C15-K2", "after orientation every tree edge points from the basin nearer the root to the "
              "farther one, pass nodes swapped with the basins", min_instances=50)
     chk.rule("C15-K3", "connect_basins creates one edge per adjacent (inner basin, neighbour basin) pair "
@@ -213,6 +216,40 @@ def run(db, chk):
                         chk.ob("C15-K1", "[%s] Kruskal and Boruvka weights agree on %s %s" % (uname, list(es), list(ws)),
                                False, where=fns["compute_tree_boruvka"].ploc, function=BG, construct="agreement",
                                detail=str(weights), extra={"unit": uname})
+        # ---- K4: the large-degree clean-up of Boruvka, reached by lowering the degree threshold ----
+        # (the shipped threshold 16 cannot be exceeded with <= 4 basins; the threshold is a tuning
+        #  member of the class and the algorithm needs only that some node of degree <= threshold
+        #  exists in every contraction: degeneracy <= 3 for all graphs of <= 4 nodes, <= 2 unless K4)
+        if not any(f["n"] == "m_max_low_degree" for f in rec["fields"]):
+            raise AnalysisBroken("C15-K4: basin_graph::m_max_low_degree not found (the large-degree path cannot "
+                                 "be reached within the bound any more)")
+        nbad4 = 0
+        for thr in ((2, 3) if chk.tier == "thorough" else (2,)):
+            for nb in range(2, nmax + 1):
+                for es in connected_graphs(nb):
+                    if thr == 2 and nb == 4 and len(es) == 6:
+                        continue        # K4: no node of degree <= 2, the threshold would be inadmissible
+                    for ws in itertools.product(wset, repeat=len(es)):
+                        edges = [(a, b, w) for (a, b), w in zip(es, ws)]
+                        n_sc += 1
+                        it = Interp(BGWorld(nb), max_steps=400000)
+                        o = new_bg(it, fns["compute_tree_boruvka"], rec, edges, 0)
+                        o.fields["m_max_low_degree"] = thr
+                        bad = []
+                        try:
+                            it.call_fn(fns["compute_tree_boruvka"], o, [])
+                            o.fields["m_edges"] = new_bg(it, fns["compute_tree_boruvka"], rec, edges, 0).fields["m_edges"]
+                            it.call_fn(fns["compute_tree_boruvka"], o, [])
+                            bad, w = check_tree(nb, edges, o, "boruvka")
+                        except ThrowEx as ex:
+                            bad.append("threw %s" % ex.text[:60])
+                        if bad:
+                            nbad4 += 1
+                        if not bad or nbad4 <= 5:
+                            chk.ob("C15-K4", "[%s] boruvka, degree threshold %d, basins graph %s weights %s"
+                                   % (uname, thr, list(es), list(ws)), not bad, where=fns["compute_tree_boruvka"].ploc,
+                                   function=fns["compute_tree_boruvka"].bn, construct="boruvka-large-degree",
+                                   detail="; ".join(bad[:2]), sample=(n_sc % 199 == 1), extra={"unit": uname})
         n_sc += connect_rule(db, chk, uname, fns, rec)
     chk.absorb(db, "C09", {"C09-P2"}, "C15-K5", "every member of the basin graph that persists between updates is "
                "reset before it is read (shared with C09-P2): root, edges, tree and scratch of a previous update "
